@@ -28,6 +28,10 @@ func TransformUpper(v cty.Value) cty.Value {
 	if v.Type() == cty.String && v.IsKnown() && !v.IsNull() {
 		return cty.StringVal(upper(v.AsString()))
 	}
+	if v.Type() == cty.String && !v.IsKnown() {
+		// the refinements of the argument (a prefix, say) do not hold for the result
+		return cty.UnknownVal(cty.String)
+	}
 	return v
 }
 
@@ -42,6 +46,10 @@ func TransformToNumber(v cty.Value) cty.Value {
 		return cty.UnknownVal(cty.Number)
 	}
 	ty := v.Type()
+	if ty.IsSetType() && !v.IsWhollyKnown() {
+		// unknown members may turn out to be equal: the size of the set is not known
+		return cty.UnknownVal(cty.Number)
+	}
 	switch {
 	case ty == cty.String:
 		return cty.NumberIntVal(int64(len(v.AsString())))
